@@ -506,6 +506,8 @@ pub struct AutoBroker {
     pub log: Vec<(u16, u32, AMQPClass, AMQPClass)>,
     /// grant held writes automatically
     pub auto_grant: bool,
+    /// answer nothing any more (a server that has gone silent)
+    pub mute: bool,
 }
 
 impl AutoBroker {
@@ -515,6 +517,7 @@ impl AutoBroker {
             seq: Default::default(),
             log: Vec::new(),
             auto_grant: true,
+            mute: false,
         }
     }
 }
@@ -570,6 +573,9 @@ pub fn reply_bundle(salt: u64, ch: u16, seq: u32, m: &AMQPClass) -> Option<Vec<A
 
 impl Responder for AutoBroker {
     fn on_frame(&mut self, io: &mut BrokerIo, frame: &AMQPFrame) {
+        if self.mute {
+            return;
+        }
         if let AMQPFrame::Method(ch, m) = frame {
             let seq = self.seq.entry(*ch).or_insert(0);
             if let Some(bundle) = reply_bundle(self.salt, *ch, *seq, m) {
